@@ -145,49 +145,102 @@ def r3_parse(ctx, sym, model):
                       x, m.group(3) if m else '?', x), construct='f"{inversion}{partial}" vs SCORE_PATTERN')
 
 
-def r5_unit_test_split(ctx, sym):
-    ctx.rule('R5', "partial_credit_logic returns one score per case on every path that builds a list (comprehension "
-                   "over `cases`), so each_score[test_index] is in range; unit_test assigns the group's score from "
-                   "`score` unchanged when partial_credit is False")
+def unit_test_runs(ctx, sym):
+    """unit_test(...) executed abstractly (with the real partial_credit_logic) over numbers of cases x score x
+    partial_credit forms x argument shapes. Yields (scenario, observations)."""
+    from .. import symexec
+    from ..fdeval import Obj, Raised
+    from .resolver_model import score_value
     mod = ctx.repo.module(ASSERT_CMDS)
-    fn = mod.func('partial_credit_logic')
-    ctx.analysed_function(mod, fn)
-    cases_p = fn.args.args[0].arg
-    pc = fn.args.args[2].arg
-    rets = [n for n in body_walk(fn) if isinstance(n, ast.Return)]
-    ctx.floor('R5', 'return paths', len(rets), 4)
-    for r in rets:
-        v = r.value
-        if isinstance(v, ast.ListComp):
-            ok = len(v.generators) == 1 and norm(v.generators[0].iter) == cases_p and not v.generators[0].ifs
-            ctx.check(ok, 'R5', 'partial_credit_logic:' + norm(v)[:50], mod, r,
-                      "the per-case score list is not built by iterating over all cases",
-                      "unit_test(..., partial_credit=...) raises IndexError or leaves a case unscored")
-        elif isinstance(v, ast.Name) and v.id == pc:
-            ctx.ok('R5', 'partial_credit_logic:instructor-list', nontrivial=False)
-        else:
-            ctx.fail('R5', 'partial_credit_logic:' + norm(v)[:50], mod, r,
-                     "return value is neither a per-case list nor the instructor's list", "unit_test scoring")
-    # division by the number of cases
-    divs = [n for n in ast.walk(fn) if isinstance(n, ast.BinOp) and isinstance(n.op, ast.Div)]
-    ok = len(divs) == 1 and norm(divs[0].right) == 'len(%s)' % cases_p and norm(divs[0].left) == 'Score.parse(score)'
-    ctx.check(ok, 'R5', 'partial_credit_logic:split', mod, divs[0] if divs else fn,
-              "the total score is not divided by the number of cases", "partial credit does not add up to the total")
     ut = mod.func('unit_test')
     ctx.analysed_function(mod, ut)
-    uses = [n for n in ast.walk(ut) if isinstance(n, ast.Subscript) and norm(n.value) == 'each_score']
-    loops = [n for n in body_walk(ut) if isinstance(n, ast.For) and norm(n.iter) == 'enumerate(tests)']
-    ok = bool(uses) and len(loops) == 1 and all(norm(u.slice) == norm(loops[0].target.elts[0]) for u in uses)
-    src = [n for n in body_walk(ut) if isinstance(n, ast.Assign) and norm(n.targets[0]) == 'each_score']
-    ok = ok and len(src) == 1 and norm(src[0].value) == 'partial_credit_logic(tests, score, partial_credit)'
-    ctx.check(ok, 'R5', 'unit_test:each_score-index', mod, ut,
-              "each_score is not indexed by the enumeration index of the same `tests` it was built from",
-              "unit_test with several cases gives a case another case's score", construct='each_score[test_index]')
-    ifs = [n for n in body_walk(ut) if isinstance(n, ast.If) and norm(n.test) == 'partial_credit is False']
-    ok = len(ifs) == 1 and len(ifs[0].body) == 1 and norm(ifs[0].body[0]) == 'group_result.score = score'
-    ctx.check(ok, 'R5', 'unit_test:all-or-nothing', mod, ifs[0] if ifs else ut,
-              "with partial_credit=False the group's score is not `score` unchanged",
-              "unit_test(score='10%') awards something else", construct='group_result.score = score')
+    ctx.analysed_function(mod, mod.func('partial_credit_logic'))
+
+    class ParsedScore(float):
+        """Score.parse(...) on a literal: the documented value; supports the division unit_test applies."""
+        def __truediv__(self, n):
+            return ParsedScore(float(self) / n)
+
+        def __str__(self):
+            return repr(float(self))
+    for n_cases in (1, 2, 3):
+        for score in (None, '+20%', '10', 0.5):
+            for pc in (False, True, '5%', 0.25, ['1', '2', '3'][:n_cases]):
+                for str_args in (False, True):
+                    rec = symexec.Recorder()
+                    group = Obj('group', successes=[], failures=[], errors=[], score=None, valence=None,
+                                POSITIVE_VALENCE=1)
+                    group.attrs['__truth__'] = False
+                    cm = Obj('unit-test-context')
+                    symexec.method(cm, '__enter__', lambda: group)
+                    symexec.method(cm, '__exit__', lambda *a: False)
+                    tests = [(('arg%d' % i) if str_args else (i, i + 1), 'expected%d' % i) for i in range(n_cases)]
+                    results = [symexec.marker('result-of-call-%d' % i) for i in range(n_cases)]
+                    counter = {'i': 0}
+
+                    def call(*a, **k):
+                        rec.events.append(('call', a, k))
+                        r = results[min(counter['i'], n_cases - 1)]
+                        counter['i'] += 1
+                        return r
+                    assert_stub = rec.stub('assert')
+                    fd = symexec.new_fd(sym, mod, extra={'assert_equal': assert_stub}, calls={
+                        '_unit_test_class': rec.stub('_unit_test_class', ret=cm), 'call': call,
+                        'assert_equal': assert_stub, 'combine_scores': rec.stub('combine_scores', ret='COMBINED'),
+                        'Score.parse': lambda s_: ParsedScore(score_value(s_)),
+                        'isinstance': lambda o, t: isinstance(o, t) if isinstance(t, (type, tuple)) and all(
+                            isinstance(x, type) for x in (t if isinstance(t, tuple) else (t,))) else False,
+                        'get_sandbox': lambda *a: Obj('sandbox')})
+                    value, raised = symexec.run(fd, ut, ['f'] + tests, {'score': score, 'partial_credit': pc},
+                                                what='unit_test')
+                    yield (dict(n=n_cases, score=score, partial_credit=pc, str_args=str_args, tests=tests),
+                           dict(rec=rec, group=group, value=value, raised=raised, results=results))
+
+
+def r5_unit_test_split(ctx, sym):
+    ctx.rule('R5', "unit_test executed abstractly with the real partial_credit_logic, over 1-3 cases x score forms x "
+                   "partial_credit forms: the assert function is called once per case, in order, with the result of "
+                   "calling the student function and the expected value; with partial_credit=True the per-case scores "
+                   "add up to `score`, a single value is given to every case, a list is used positionally, and with "
+                   "partial_credit=False the group's score is `score` unchanged")
+    from .resolver_model import score_value
+    mod = ctx.repo.module(ASSERT_CMDS)
+    ut = mod.func('unit_test')
+    n = 0
+    for sc, ob in unit_test_runs(ctx, sym):
+        n += 1
+        tag = '[cases=%d,score=%r,partial_credit=%r%s]' % (sc['n'], sc['score'], sc['partial_credit'],
+                                                           ',string-args' if sc['str_args'] else '')
+        rec = ob['rec']
+        if ob['raised'] is not None:
+            ctx.fail('R5', 'unit_test:raises' + tag, mod, ut, "unit_test raises %s (%s)" % (
+                ob['raised'].kind, ob['raised'].detail), "unit_test('f', ..., score=%r, partial_credit=%r)" % (
+                sc['score'], sc['partial_credit']))
+            continue
+        asserts = rec.named('assert')
+        per_case = [a[2].get('score', 'missing') for a in asserts]
+        pc, score = sc['partial_credit'], sc['score']
+        if pc is True and score:
+            try:
+                ok = len(per_case) == sc['n'] and abs(sum(score_value(x) for x in per_case) - score_value(score)) < 1e-9
+            except Exception:
+                ok = False
+            want = '%d scores adding up to %r' % (sc['n'], score)
+        elif pc is True or pc is False:
+            ok, want = per_case == [None] * sc['n'], 'no per-case score'
+        elif isinstance(pc, list):
+            ok, want = per_case == pc, 'the instructor list %r, positionally' % (pc,)
+        else:
+            ok, want = per_case == [pc] * sc['n'], '%r for every case' % (pc,)
+        ctx.check(ok, 'R5', 'unit_test:per-case-scores' + tag, mod, ut,
+                  "the cases are given the scores %r; expected %s" % (per_case, want),
+                  "unit_test with several cases gives a case another case's score, or partial credit does not add up "
+                  "to the total")
+        if pc is False:
+            ctx.check(ob['group'].attrs['score'] == score, 'R5', 'unit_test:all-or-nothing' + tag, mod, ut,
+                      "with partial_credit=False the group's score is %r, not `score` (%r) unchanged" % (
+                          ob['group'].attrs['score'], score), "unit_test(score=%r) awards something else" % (score,))
+    ctx.floor('R5', 'unit_test scenarios', n, 60)
 
 
 def run(ctx):
